@@ -1,4 +1,4 @@
 SPECIFICATION Spec
 CHECK_DEADLOCK FALSE
-CONSTANTS MaxLen = 7 Starts = {3} Export = FALSE QTruthy = FALSE
+CONSTANTS MaxLen = 7 Starts = {3} Export = FALSE Variant = "code"
 INVARIANT FillIsGaplessAndFaithful
